@@ -42,6 +42,7 @@ type runSpec struct {
 	Emit   bool   `json:"emit"`   // pass a signalsFromStep channel
 	As     string `json:"as"`     // run ID to use instead of ID (a run ID used again, or - with Dup - while it is in flight)
 	Dup    bool   `json:"dup"`    // As names a run ID that another caller of the same phase uses at the same time
+	After  string `json:"after"`  // the step of this run finishes only when the caller of run After has returned (a slow step)
 }
 
 type action struct {
@@ -168,7 +169,8 @@ type world struct {
 	spawned    map[string]bool
 	stepGate   func(run string)
 	plug       *schema.CallableSchema
-	dupRet     map[string]chan struct{} // run ID used by two callers -> closed when the first of them has returned
+	dupRet     map[string]chan struct{} // run ID -> closed when the first caller using it has returned
+	stepWaits  map[string]string        // run ID whose step waits -> run ID whose caller it waits for
 }
 
 func prop(t schema.Type) *schema.PropertySchema {
@@ -416,7 +418,9 @@ func (w *world) spawnCaller(id string) {
 			default:
 				close(ch)
 			}
-			go w.closeSignal(id)
+			if rs.Dup || w.stepWaits[runID] == runID {
+				go w.closeSignal(id)
+			}
 		}
 		e := w.res[id]
 		e.Returns++
@@ -799,18 +803,27 @@ func runScenario(sc scenario) (res *result) {
 		w.finish(res, wantClose)
 	case "delay", "free":
 		for _, r := range sc.Runs {
-			if r.As != "" && r.Dup {
+			watch := func(step, caller string) {
 				if w.dupRet == nil {
-					w.dupRet = map[string]chan struct{}{}
+					w.dupRet, w.stepWaits = map[string]chan struct{}{}, map[string]string{}
 				}
-				w.dupRet[r.As] = make(chan struct{})
+				if _, ok := w.dupRet[caller]; !ok {
+					w.dupRet[caller] = make(chan struct{})
+				}
+				w.stepWaits[step] = caller
+			}
+			if r.As != "" && r.Dup {
+				// the step of a run ID used by two callers runs until one of them (the one refused as a duplicate) is back
+				watch(r.As, r.As)
+			}
+			if r.After != "" {
+				watch(r.ID, r.After)
 			}
 		}
 		if w.dupRet != nil {
-			// the step of a run ID used by two callers runs until one of them (the one refused as a duplicate) is back
 			w.stepGate = func(run string) {
-				if ch, ok := w.dupRet[run]; ok {
-					<-ch
+				if c, ok := w.stepWaits[run]; ok {
+					<-w.dupRet[c]
 				}
 			}
 		}
